@@ -59,8 +59,38 @@ def apply_mutant(m, scratch):
     return None
 
 
+def _violation_keys(evdir, prop):
+    try:
+        with open(os.path.join(evdir, '%s.json' % prop)) as f:
+            ev = json.load(f)
+        return {(v['rule'], v['key']) for v in ev['coverage'].get('new_violations', [])} | \
+               {(v['rule'], v['key']) for v in ev['coverage'].get('known_findings_matched', [])}
+    except Exception:
+        return set()
+
+
+def baseline_keys(root, props):
+    """Violations already present on the unmutated tree (findings under triage);
+    a mutant is judged on the violations it ADDS."""
+    from ..cli import run_property
+    from ..model import Project
+
+    tmp = tempfile.mkdtemp(prefix='sa_base_')
+    out = {}
+    try:
+        project = Project(root)
+        for p in props:
+            buf = io.StringIO()
+            with contextlib.redirect_stdout(buf):
+                run_property(p, 'quick', root, tmp, project)
+            out[p] = _violation_keys(tmp, p)
+    finally:
+        shutil.rmtree(tmp, ignore_errors=True)
+    return out
+
+
 def _run_one(args):
-    m, root, props = args
+    m, root, props, base = args
     from ..cli import run_property
     from ..model import Project, AnalysisError
 
@@ -85,9 +115,11 @@ def _run_one(args):
             with contextlib.redirect_stdout(buf):
                 rc = run_property(p, 'quick', tmp, evdir, project)
             out = buf.getvalue()
-            if rc == 1:
-                rules = sorted({ln.split()[1] for ln in out.splitlines() if ln.startswith('  rule ')})
-                res['fired'][p] = {'rules': rules, 'lines': [ln for ln in out.splitlines() if ln.startswith('  rule ')][:4]}
+            if rc == 1 or base.get(p):
+                newk = _violation_keys(evdir, p) - base.get(p, set())
+                if newk:
+                    rules = sorted({r for (r, _k) in newk})
+                    res['fired'][p] = {'rules': rules, 'lines': sorted(k for (_r, k) in newk)[:4]}
             elif rc == 2:
                 res['errors'][p] = [ln for ln in out.splitlines() if ln.startswith('ANALYSIS-ERROR')][:3]
         tgt = m['property']
@@ -110,7 +142,8 @@ def _run_one(args):
 
 
 def run_mutants(mutants, root, props, jobs=16):
-    work = [(m, root, props) for m in mutants]
+    base = baseline_keys(root, props)
+    work = [(m, root, props, base) for m in mutants]
     if jobs <= 1 or len(work) <= 1:
         return [_run_one(w) for w in work]
     with ProcessPoolExecutor(max_workers=min(jobs, len(work))) as ex:
